@@ -997,7 +997,14 @@ class RecordLayer(object):
                 header = RecordHeader3().create((3, 4), contentType, len(data))
 
             # RFC 5246, section 6.2.1
-            if len(data) > self.recv_record_limit:
+            # (a limit negotiated with record_size_limit applies to
+            # protected records only, RFC 8449 section 4)
+            if self._readState and (self._readState.encContext or
+                                    self._readState.macContext):
+                plaintext_limit = self.recv_record_limit
+            else:
+                plaintext_limit = max(self.recv_record_limit, 2**14)
+            if len(data) > plaintext_limit:
                 raise TLSRecordOverflow()
 
             yield (header, Parser(data))
